@@ -10,6 +10,7 @@ import (
 	"sort"
 	"strings"
 	"testing"
+	"time"
 
 	"github.com/ozanh/ugo"
 	"pgregory.net/rapid"
@@ -117,7 +118,18 @@ func TestCheck(t *testing.T) {
 				rt.Fatalf("HARNESS: generated program does not compile: %v\n%s", err, p.Src)
 			}
 			if got.TimedOut {
-				rec.Inconcl("vm-watchdog")
+				// the reference model finished this program within its step budget; the VM did not within 5 s
+				// (>= 10^4 x the typical run). Confirm alone with a longer budget before calling it non-termination.
+				got2, _, _, _ := prog.RunVM(p, ugo.CompilerOptions{NoOptimize: noopt}, run.Opts{Recover: true, Timeout: 25 * time.Second})
+				if !got2.TimedOut {
+					rec.Inconcl("vm-watchdog-slow")
+					return
+				}
+				what := fmt.Sprintf("the VM (NoOptimize=%v) does not terminate on a program the reference semantics finishes (aborted after 5 s and again after 25 s)\n--- script ---\n%s\nREF: %s", noopt, p.Src, want)
+				if rec.Violation("semantics:vm-does-not-terminate", what, replayCase{Case: p.Case(), NoOptimize: noopt, Expected: want, Got: got2}) {
+					return
+				}
+				rt.Fatalf("%s", what)
 				return
 			}
 			if d := diff(got, want); d != "" {
